@@ -88,6 +88,12 @@ func Gcd(f *Polynomial, g ...*Polynomial) (*Polynomial, error) {
 		}
 	}
 
+	// An argument with non-nil error status has no gcd: report its error
+	// instead of skipping it (such polynomials are usually zero)
+	if tmp := hasErr(op, f, g...); tmp != nil {
+		return nil, tmp.Err()
+	}
+
 	switch len(g) {
 	case 0:
 		return f.Copy(), nil
